@@ -21,13 +21,17 @@ type FileGenOpts struct {
 	NoSources bool
 	HeaderCRC int // 0 PRNG, 1 without, 2 with
 	Proto     int // 0 PRNG, 1 V10, 2 V20
+	// Phased: long slices are filled in phases of 250-300 messages; within a phase every message sets
+	// the same one or two fields, and the phases use different fields (an activity that records heart
+	// rate first, cadence later ...).
+	Phased bool
 	// OutOfDomain: also produce strings longer than the field and arrays longer than the profile length.
 	OutOfDomain bool
 	// MaxFieldsSet bounds the number of fields set per message (0: no bound). Messages whose
 	// encoded size would exceed what one record can hold are the encoder's documented FIXME.
 }
 
-var utf8Pool = []string{"a", "Zz", "fēnix", "日本", "éàü", "Edge 1030", "x", "ß", "0123456789", "Größe", "😀", "abc def"}
+var utf8Pool = []string{"\uFFFD", "a", "Zz", "fēnix", "日本", "éàü", "Edge 1030", "x", "ß", "0123456789", "Größe", "😀", "abc def"}
 
 // genString returns a valid UTF-8 string of at most max bytes.
 func genString(rng *Rand, max int) string {
@@ -259,6 +263,30 @@ func GenFile(rng *Rand, o FileGenOpts) *fit.File {
 			continue
 		}
 		n := rng.Intn(max + 1)
+		if o.Phased && len(prof.ByMesg[s.Global]) >= 4 {
+			n = 600 + rng.Intn(500)
+			fields := prof.ByMesg[s.Global]
+			var phase []*ref.PField
+			left := 0
+			for k := 0; k < n; k++ {
+				if left == 0 {
+					left = 250 + rng.Intn(60)
+					phase = phase[:0]
+					for _, i := range rng.Perm(len(fields))[:1+rng.Intn(2)] {
+						if pf := fields[i]; !(pf.Array && ref.BaseTypes[pf.Base].Code == 7) {
+							phase = append(phase, pf)
+						}
+					}
+				}
+				left--
+				m := fit.VerifNewMesg(s.Global)
+				for _, pf := range phase {
+					SetField(rng, m.Elem(), pf, &o)
+				}
+				fv.Set(reflect.Append(fv, m))
+			}
+			continue
+		}
 		for k := 0; k < n; k++ {
 			m := fit.VerifNewMesg(s.Global)
 			FillMesg(rng, s.Global, m, &o)
